@@ -1244,8 +1244,15 @@ class VWorld:
                 self.commit_all(ch)
 
     def executing(self) -> list:
-        return [c for c in self.children if c.state == 'running' and not c.result_committed and not getattr(c, 'doomed', False)
-                ] + [c for c in self.children if c.state == 'running' and getattr(c, 'doomed', False)]
+        # (workers an EARLIER run_tasks call left behind - see E3Config.prelude / Config.history - are not
+        # workers of the measured call: the statements are about one call)
+        mine = [c for c in self.children if not getattr(c, 'foreign', False)]
+        return [c for c in mine if c.state == 'running' and not c.result_committed and not getattr(c, 'doomed', False)
+                ] + [c for c in mine if c.state == 'running' and getattr(c, 'doomed', False)]
+
+    def disown_children(self):
+        for c in self.children:
+            c.foreign = True
 
 
 # ---------------------------------------------------------------------------
